@@ -456,7 +456,47 @@ def r13_8(chk):
     chk.floor("R13.8", 4, "two writes x two lists")
 
 
+def r13_9(chk):
+    chk.rule("R13.9", "one checksum per record: in DataStoreDirectory._write the checksum file's path depends on every parameter the data file's path depends on (the table `subdir` as well as the identifier) -- otherwise a completed and a not-completed record of one identifier share a checksum file and each write invalidates the other's checksum")
+    from .. import defuse as D
+
+    m = chk.repo.module(DS)
+    fn = m.func("DataStoreDirectory._write")
+    ps = [p for p in params_of(fn) if p not in ("self", "data")]
+    def write_mode(a):
+        if isinstance(a, ast.Constant):
+            return isinstance(a.value, str) and a.value[:1] in ("w", "a", "x")
+        if isinstance(a, ast.IfExp):
+            return write_mode(a.body) and write_mode(a.orelse)
+        if isinstance(a, ast.Name):
+            vals = [v for tg, v, _ in D.assignments(fn) for t in tg if isinstance(t, ast.Name) and t.id == a.id]
+            return bool(vals) and all(write_mode(v) for v in vals)
+        return False
+
+    opens = [c for c in walk_no_nested(fn) if isinstance(c, ast.Call) and (call_name(c) or "").split(".")[-1] in ("open_", "open") and c.args and any(write_mode(a) for a in list(c.args[1:]) + [k.value for k in c.keywords if k.arg == "mode"])]
+    md5_names = D.derived_names(fn, {"_MD5_TABLE"})
+    md5 = [c for c in opens if D.names_in(c.args[0]) & md5_names]
+    data = [c for c in opens if not (D.names_in(c.args[0]) & md5_names)]
+    if not md5 or not data:
+        raise AnalysisError("DataStoreDirectory._write: data / checksum file opens not found")
+
+    def depends(path_expr):
+        out = set()
+        for p_ in ps:
+            dn = D.derived_names(fn, {p_})
+            if D.names_in(path_expr) & dn:
+                out.add(p_)
+        return out
+
+    dd, dm = depends(data[0].args[0]), depends(md5[0].args[0])
+    # `suffix` only selects the extension, which the checksum name replaces by .txt
+    missing = sorted((dd - dm) - {"suffix"})
+    chk.decide(not missing, "R13.9", key(m, "DataStoreDirectory._write", "checksum path covers the data path's parameters"), m.loc(md5[0]), f"data path depends on {sorted(dd)}, checksum path on {sorted(dm)}", f"the data file's path depends on {sorted(dd)} but the checksum file's path only on {sorted(dm)}: records that differ in {missing} share one checksum file")
+    chk.floor("R13.9", 1, "one writer")
+
+
 def run(chk):
+    r13_9(chk)
     r13_7(chk)
     r13_8(chk)
     r13_6(chk)
